@@ -78,6 +78,7 @@ def check_case(run, members, fbp, extra_bp, exit_on_exception):
     modes = {m[1] for m in members}
     near_tie = len({m[0] for m in oks}) < len(oks)
     port = None
+    tagged = {}
     try:
         with env:
             names = []
@@ -92,7 +93,18 @@ def check_case(run, members, fbp, extra_bp, exit_on_exception):
             e2 = pys.build(env, extra_bp)
             b2 = pys.decode(e2)
             opts = {"solver_options": {"exit_on_exception": True}} if exit_on_exception else {}
-            port = Portfolio(names, environment=env, logic=QF_UFBV, incremental=True, generate_models=True, **opts)
+            # per-member options (every other member) and, sometimes, the same solver listed twice
+            spec = list(names)
+            h = (sum(d for (d, _) in members) * 7 + len(members) * 3 + len(repr(fbp))) % 10
+            if not exit_on_exception and h <= 2:
+                for i in range(0, len(names), 2):
+                    spec[i] = (names[i], {"solver_options": {":vf-member": i}})
+                    tagged[i] = i
+                run.cls("per-member-options")
+            elif not exit_on_exception and h <= 6 and all(m == members[0] for m in members):
+                spec = [(names[0], {"solver_options": {":vf-member": k}}) for k in range(len(names))]
+                run.cls("same-solver-listed-twice")
+            port = Portfolio(spec, environment=env, logic=QF_UFBV, incremental=True, generate_models=True, **opts)
             port.add_assertion(f)
             steps = [("solve", [b])]
             live = [b]
@@ -209,6 +221,19 @@ def check_case(run, members, fbp, extra_bp, exit_on_exception):
                 p.terminate()
             except Exception:
                 pass
+        # options given to one member must reach that member only
+        try:
+            for i in range(len(members)):
+                vals = set()
+                for rec in read_log(os.path.join(tmp, "log%d.jsonl" % i)):
+                    if (rec["cmd"] or "").startswith("(set-option :vf-member"):
+                        vals.add(int(rec["cmd"].split()[2].rstrip(")")))
+                want = {tagged[i]} if i in tagged else set()
+                if tagged and vals - want:      # (a member stopped early may not have received its own yet)
+                    run.fail({"subcheck": "portfolio:member-options"}, case,
+                             "member %d received the member options %s, it was given %s" % (i, sorted(vals), sorted(want)))
+        except Exception:
+            pass
         # finishing order of the members at the first check-sat
         order = []
         for i in range(len(members)):
